@@ -762,8 +762,18 @@ impl<'a> World<'a> {
             self.o.violate("channel-id-not-fresh", "ChannelId::new", format!("channel {} got an id already used in this run", ci));
         }
         let c = &self.chans[ci];
-        let cb = za::CustomerBalance::try_new(c.plan.cust_bal).unwrap_or_else(|_| crate::harness_error("plan: customer balance out of range"));
-        let mb = za::MerchantBalance::try_new(c.plan.merch_bal).unwrap_or_else(|_| crate::harness_error("plan: merchant balance out of range"));
+        if c.plan.cust_bal as i128 > MAXB || c.plan.merch_bal as i128 > MAXB {
+            crate::harness_error("plan: balance out of range");
+        }
+        let (cb, mb) = match (za::CustomerBalance::try_new(c.plan.cust_bal), za::MerchantBalance::try_new(c.plan.merch_bal)) {
+            (Ok(a), Ok(b)) => (a, b),
+            _ => {
+                let d = format!("channel {}: an in-range balance of ({}, {}) is refused by its constructor", ci, c.plan.cust_bal, c.plan.merch_bal);
+                self.o.violate("balance-constructor-wrong", "try_new", d);
+                self.finish_channel(ci);
+                return;
+            }
+        };
         // merchant application duty: channel capacity
         let cap = mb.try_add(cb);
         let ideal = c.plan.cust_bal as i128 + c.plan.merch_bal as i128;
